@@ -4,7 +4,7 @@
    onnx_ir/_symbolic_shapes.py and the constructor trees the SymbolicDim operators ask SymPy to build; the
    function table and the operator sets come from Gen/C16Gen.v, regenerated from the source on every run. *)
 From Coq Require Import ZArith NArith List Bool QArith Qround.
-From IRV Require Import Base.Exn Gen.C16Gen C16.Model C16.ProofsEval C16.ProofsParser C16.ProofsParser2 C16.ProofsLexer C16.ProofsStructure.
+From IRV Require Import Base.Exn Gen.C16Gen C16.Model C16.ProofsEval C16.ProofsParser C16.ProofsParser2 C16.ProofsLexer C16.ProofsStructure C16.ProofsPrintMin.
 Import ListNotations.
 
 (* The operator sets of every precedence level, the shape of the descent (which _parse_* calls which), the
@@ -100,6 +100,38 @@ Proof.
 Qed.
 Print Assumptions C16_eval_integer.
 
+(* Exact integer powers: x ** y is Z.pow for y >= 0 and the exact reciprocal 1 / x ** k for y = -k, x <> 0. *)
+Theorem C16_eval_integer_pow :
+  forall s a b x, isZ (eval s a) x ->
+    (forall y, isZ (eval s b) y -> (0 <= y)%Z -> isZ (eval s (EBin BPow a b)) (x ^ y)) /\
+    (forall k, isZ (eval s b) (- Z.pos k) -> x <> 0%Z ->
+       exists q, eval s (EBin BPow a b) = Some q /\ q == / inject_Z (x ^ Z.pos k)).
+Proof.
+  intros s a b x Ha. split; [intros y Hb Hy; eapply isZ_pow; eassumption|].
+  intros k Hb Hx. eapply eval_pow_neg; eassumption.
+Qed.
+Print Assumptions C16_eval_integer_pow.
+
+Example C16_ex_pow : (* (-3)**3 = -27 ; 2**-2 = 1/4 ; 0**0 = 1 ; 0**-1 undefined *)
+  eval_int [] (EBin BPow (EInt (-3)) (EInt 3)) = Some (-27)%Z /\
+  eval [] (EBin BPow (EInt 2) (EInt (-2))) = Some (1 # 4) /\
+  eval_int [] (EBin BPow (EInt 0) (EInt 0)) = Some 1%Z /\
+  eval [] (EBin BPow (EInt 0) (EInt (-1))) = None.
+Proof. repeat split; vm_compute; reflexivity. Qed.
+
+(* A residual has exactly the unbound symbols, and evaluation depends only on the symbols that occur:
+   what evaluate(partial) returns can be bound later in any order, with any additional bindings. *)
+Theorem C16_residual_symbols :
+  forall s e, free_syms (subst s e) =
+    filter (fun x => match lookup s x with None => true | Some _ => false end) (free_syms e).
+Proof. exact free_syms_subst. Qed.
+Print Assumptions C16_residual_symbols.
+
+Theorem C16_eval_depends_on_free_symbols :
+  forall s1 s2 e, (forall x, In x (free_syms e) -> lookup s1 x = lookup s2 x) -> eval s1 e = eval s2 e.
+Proof. exact eval_ext. Qed.
+Print Assumptions C16_eval_depends_on_free_symbols.
+
 Theorem C16_eval_rounding :
   forall s e q, eval s e = Some q ->
     eval s (EUn FFloor e) = Some (inject_Z (Qfloor q)) /\
@@ -131,3 +163,42 @@ Example C16_ex_print_parse :   (* ceil(N/2) and trunc((N - M)/2): the two forms 
   parse_dim (pr (EUn FCeil (EBin BDiv (ESym [78%N]) (EInt 2)))) = Some (EUn FCeil (EBin BDiv (ESym [78%N]) (EInt 2))) /\
   let t := ETrunc (EBin BDiv (EBin BSub (ESym [78%N]) (ESym [77%N])) (EInt 2)) in parse_dim (pr t) = Some t.
 Proof. split; vm_compute; reflexivity. Qed.
+
+(* Print -> parse is the IDENTITY on trees (up to writing a negative literal as a negation; exactly the identity on
+   trees without negative literals), for the fully parenthesised printer ... *)
+Theorem C16_print_parse_exact :
+  forall e, idents_ok e = true ->
+    parse_dim (pr e) = Some (norm e) /\ (nonneg_lits e = true -> parse_dim (pr e) = Some e).
+Proof. exact print_parse_exact. Qed.
+Print Assumptions C16_print_parse_exact.
+
+(* ... and for the MINIMAL-parenthesis printer (parentheses only where precedence / associativity need them,
+   floor(a / b) written a // b) over the whole operator set: + - * / // Mod ** unary minus floor ceiling Abs sign
+   sqrt Max Min.  So every tree has a text in the documented grammar that the parser reads back to it, and the
+   parser's precedence and associativity are exactly the ones the printer relies on. *)
+Theorem C16_print_min_parse :
+  forall e, idents_ok e = true ->
+    parse_dim (prmin e) = Some (norm e) /\ (forall s, eval s (norm e) = eval s e) /\
+    (nonneg_lits e = true -> parse_dim (prmin e) = Some e).
+Proof. exact print_min_parse. Qed.
+Print Assumptions C16_print_min_parse.
+
+Example C16_ex_print_min_corner_cases :
+  let a := ESym [97%N] in let b := ESym [98%N] in let c := ESym [99%N] in
+  let txt (l : list N) := l in
+  (* a - (b - c) ; (a - b) - c *)
+  prmin (EBin BSub a (EBin BSub b c)) = [97; 32; 45; 32; 40; 32; 98; 32; 45; 32; 99; 32; 41; 32]%N /\
+  prmin (EBin BSub (EBin BSub a b) c) = [97; 32; 45; 32; 98; 32; 45; 32; 99; 32]%N /\
+  (* -(a ** b) is "- a ** b" ; (-a) ** b keeps its parentheses ; a ** -b needs none *)
+  prmin (ENeg (EBin BPow a b)) = [45; 32; 97; 32; 42; 42; 32; 98; 32]%N /\
+  prmin (EBin BPow (ENeg a) b) = [40; 32; 45; 32; 97; 32; 41; 32; 42; 42; 32; 98; 32]%N /\
+  prmin (EBin BPow a (ENeg b)) = [97; 32; 42; 42; 32; 45; 32; 98; 32]%N /\
+  (* a // b // c  vs  a // (b // c) *)
+  prmin (EFloorDiv (EFloorDiv a b) c) = [97; 32; 47; 47; 32; 98; 32; 47; 47; 32; 99; 32]%N /\
+  prmin (EFloorDiv a (EFloorDiv b c)) = [97; 32; 47; 47; 32; 40; 32; 98; 32; 47; 47; 32; 99; 32; 41; 32]%N /\
+  forallb (fun e => oexpr_eqb (parse_dim (prmin e)) (Some e))
+    [EBin BSub a (EBin BSub b c); EBin BSub (EBin BSub a b) c; ENeg (EBin BPow a b); EBin BPow (ENeg a) b;
+     EBin BPow a (ENeg b); EFloorDiv (EFloorDiv a b) c; EFloorDiv a (EFloorDiv b c);
+     EBin BPow (EBin BPow a b) c; EBin BPow a (EBin BPow b c); EBin BMul a (EBin BAdd b c);
+     EBin BMod (ENeg a) (EBin BMax b (EUn FCeil (EBin BDiv a c))); ETrunc (EBin BDiv (EBin BSub a b) (EInt 2))] = true.
+Proof. repeat split; vm_compute; reflexivity. Qed.
